@@ -119,7 +119,12 @@ def render_file(f):
 def include_case(ctx, rng, worker):
     files, root = gen_tree(rng)
     srcs = {p: render_file(f) for p, f in files.items()}
-    job = lib.asm_job(lib.files_json(srcs), roots=[root], want=["msgs", "fsevents"])
+    extra = []
+    if rng.random() < 0.25:
+        # several input files: each is a root of its own; a `#once` file reachable from more than one is still spliced once
+        cands = [p for p, f in files.items() if p != root and not f["once"]]
+        extra = rng.sample(cands, min(len(cands), rng.randint(1, 2)))
+    job = lib.asm_job(lib.files_json(srcs), roots=[root] + extra, want=["msgs", "fsevents"])
     rec = worker.run(job)
     ctx.evaluated()
     if lib.abnormal(rec):
@@ -128,7 +133,7 @@ def include_case(ctx, rng, worker):
     ctx.monitor("expansion-model")
     ctx.monitor("path-model")
     try:
-        want, ambiguous = I.expand(files, root)
+        want, ambiguous = I.expand(files, root, extra)
         err = None
     except I.ExpandError as e:
         want, err = None, e.kind
@@ -153,7 +158,7 @@ def include_case(ctx, rng, worker):
             # the only legitimate success: the model's ambiguity (cycle through a #once file)
             state_amb = False
             try:
-                I.expand(files, root)
+                I.expand(files, root, extra)
             except I.ExpandError:
                 pass
             ctx.violation("includes", {"kind": "accepted-invalid-graph", "model": err}, job, {"error": err},
